@@ -13,6 +13,7 @@ contract".
 import KDVerif.Lemmas.Geometry
 import KDVerif.Lemmas.GeometryRearrange
 import KDVerif.Lemmas.GeometryGrid
+import KDVerif.Lemmas.C14Extra
 import KDVerif.Gen.Patterns
 import Mathlib.Tactic.Ring
 import Mathlib.Tactic.FieldSimp
@@ -871,5 +872,524 @@ theorem range_denorm_norm_id (x : Rat) : rangeDenormalize (rangeNormalize x) = x
   unfold rangeDenormalize rangeNormalize normalize
   ring
 
+/-! # additions: recorded parameters applied by hand, output sizes, inverses in both directions, both mask axes -/
+
+/-! ## recorded parameters applied by hand (cell-wise), requested output size -/
+
+/-- **KDRandomCrop — the recorded parameters reproduce the output, and the output has the requested size.**
+    Clause: "return the requested output size … the parameters they record in the context reproduce their output exactly
+    when applied to the input by hand". For every `h × w` input grid `g`, every configuration and every tape: applying the
+    recorded pad calls (constant mode) and cropping the recorded box `ctx["random_crop"]` by hand gives a `th × tw` grid
+    whose cell `(r, k)` is the padded input's cell `(i + r, j + k)`, which is (closed form `padCropCell`) the input's cell
+    `(i + r - T, j + k - L)` or the fill value.
+    Hypotheses from the domain: `0 < h` (an image has at least one row), `c.padding.nonneg` (the `padding` argument is a
+    padding, not a negative crop). -/
+theorem crop_recorded_params_reproduce_output {α : Type} (c : CropCfg) (h w : Nat) (t t' : Tape) (o : CropOut)
+    (fill : α) (g : Grid α) (hr : randomCrop c (h : Int) (w : Int) t = .ok (o, t'))
+    (hg : g.Shaped h w) (hh : 0 < h) (hp : c.padding.nonneg) :
+    (applyPads fill o.pads g).Shaped o.H.toNat o.W.toNat ∧
+    ((applyPads fill o.pads g).cropBox o.box).Shaped c.th.toNat c.tw.toNat ∧
+    ∀ r k, r < c.th.toNat → k < c.tw.toNat →
+      ((applyPads fill o.pads g).cropBox o.box).cell r k
+          = (applyPads fill o.pads g).cell (o.box.i.toNat + r) (o.box.j.toNat + k) ∧
+      ((applyPads fill o.pads g).cropBox o.box).cell r k = padCropCell fill g h w o.pads o.box r k ∧
+      ∃ a, ((applyPads fill o.pads g).cropBox o.box).cell r k = some a := by
+  obtain ⟨e1, e2, e3, hin, eh, ew⟩ := crop_in_bounds c h w t t' o hr
+  have hn : padsNonneg o.pads := e1 ▸ c14x_padSeq_nonneg c h w hp
+  rw [e2, e3] at hin
+  have := c14x_pad_crop_spec fill g h w o.pads o.box hn hg hh hin
+  rw [eh, ew, ← e2, ← e3] at this
+  exact this
+
+/-- 2×3 input, padding 1 on every side, 2×2 crop at the drawn offset (0, 3): the by-hand result, cell by cell -/
+example : (match randomCrop ⟨2, 2, .all 1, false⟩ 2 3 [.ints 0 3 0, .ints 0 4 3] with
+    | .ok (o, _) => decide (((applyPads (0 : Int) o.pads [[1, 2, 3], [4, 5, 6]]).cropBox o.box) = [[0, 0], [3, 0]] ∧
+        padCropCell (0 : Int) [[1, 2, 3], [4, 5, 6]] 2 3 o.pads o.box 1 0 = some 3)
+    | .error _ => false) = true := by decide +kernel
+
+/-- without any pad call the output cell `(r, k)` is simply the input cell `(i + r, j + k)` -/
+theorem crop_unpadded_cells {α : Type} (c : CropCfg) (h w : Nat) (t t' : Tape) (o : CropOut) (g : Grid α)
+    (hr : randomCrop c (h : Int) (w : Int) t = .ok (o, t')) (hg : g.Shaped h w)
+    (hp : c.padding = .none) (hpin : c.padIfNeeded = false) :
+    o.pads = [] ∧ (g.cropBox o.box).Shaped c.th.toNat c.tw.toNat ∧
+    ∀ r k, r < c.th.toNat → k < c.tw.toNat → (g.cropBox o.box).cell r k = g.cell (o.box.i.toNat + r) (o.box.j.toNat + k) := by
+  obtain ⟨e1, e2, e3, hin, eh, ew⟩ := crop_in_bounds c h w t t' o hr
+  have e0 : o.pads = [] := by rw [e1]; simp [padSeq, hp, hpin, Padding.toPads]
+  rw [e2, e3, e0] at hin
+  have hin' : o.box.inside (h : Int) (w : Int) := by simpa [padH, padW] using hin
+  have hs := c14x_cropBox_shaped g h w o.box hg hin'
+  rw [eh, ew] at hs
+  refine ⟨e0, hs, fun r k hr' hk' => c14x_cell_cropBox g o.box r k (by rw [eh]; exact hr') (by rw [ew]; exact hk')⟩
+
+example : (match randomCrop ⟨2, 2, .none, false⟩ 3 3 [.ints 0 2 1, .ints 0 2 0] with
+    | .ok (o, _) => decide (Grid.cropBox ([[1, 2, 3], [4, 5, 6], [7, 8, 9]] : Grid Int) o.box = [[4, 5], [7, 8]])
+    | .error _ => false) = true := by decide +kernel
+
+/-- **`KDRandomCrop._pad_image` by hand — shape and every cell of the padded image.** Clause: "pad … stay inside the
+    input's bounds and return the requested output size". For every `h × w` input and every configuration with a
+    non-negative `padding`: the pad calls applied by hand (constant mode) give an image of the size the model reports,
+    at least `th × tw` when `pad_if_needed` is set, and cell `(x, y)` of it is the input cell `(x - T, y - L)` when that
+    falls on the input and the fill value otherwise (`paddedCell`; `T`, `L` = rows / columns added above / left).
+    Hypotheses from the domain: `0 < h`, `c.padding.nonneg`. -/
+theorem pad_image_shape_and_cells {α : Type} (c : CropCfg) (h w : Nat) (fill : α) (g : Grid α)
+    (hg : g.Shaped h w) (hh : 0 < h) (hp : c.padding.nonneg) :
+    (applyPads fill (padSeq c h w) g).Shaped (padH h (padSeq c h w)).toNat (padW w (padSeq c h w)).toNat ∧
+    (c.padIfNeeded = true → c.th.toNat ≤ (padH h (padSeq c h w)).toNat ∧ c.tw.toNat ≤ (padW w (padSeq c h w)).toNat) ∧
+    (h : Int) ≤ padH h (padSeq c h w) ∧ (w : Int) ≤ padW w (padSeq c h w) ∧
+    ∀ x y, (applyPads fill (padSeq c h w) g).cell x y =
+      paddedCell fill g h w (padTop (padSeq c h w)) (padLeft (padSeq c h w))
+        (padH h (padSeq c h w)).toNat (padW w (padSeq c h w)).toNat x y := by
+  obtain ⟨s1, _, s3⟩ := c14x_applyPads_spec fill (padSeq c h w) g h w (c14x_padSeq_nonneg c h w hp) hg hh
+  have g1 := padding_grows c.padding hp h w
+  refine ⟨s1, ?_, ?_, ?_, s3⟩
+  · intro hpin
+    have := pad_reaches_size c h w hpin
+    omega
+  · rw [padH_padSeq]; split_ifs <;> omega
+  · rw [padW_padSeq]; split_ifs <;> omega
+
+/-- 1×2 input, target 3×3 with `pad_if_needed`: one column left and right, two rows above and below -/
+example : applyPads (0 : Int) (padSeq ⟨3, 3, .none, true⟩ 1 2) [[7, 8]]
+    = [[0, 0, 0, 0], [0, 0, 0, 0], [0, 7, 8, 0], [0, 0, 0, 0], [0, 0, 0, 0]] := by decide +kernel
+
+/-- **KDSimpleRandomCrop = `Resize` then `KDRandomCrop` — requested output size.** Whatever the interpolation kernel and
+    whatever size `h' × w'` the `Resize` produces (handed in, `0 < h'`), the result of the crop of the resized image,
+    reproduced by hand from the recorded parameters, is `th × tw`, and its cells are those of the padded resized image
+    at the recorded offsets. (Shape and offsets do not depend on the padding mode; the closed form of the border values
+    in `crop_recorded_params_reproduce_output` is for constant mode, this transform's default mode is `reflect`.) -/
+theorem simple_random_crop_output_size {α β : Type} (c : CropCfg) (h' w' : Nat) (t t' : Tape) (o : CropOut)
+    (kern : Grid α → Nat → Nat → β) (fill : β) (g : Grid α)
+    (hr : randomCrop c (h' : Int) (w' : Int) t = .ok (o, t')) (hh : 0 < h') (hp : c.padding.nonneg) :
+    ((applyPads fill o.pads (resizeWith kern h' w' g)).cropBox o.box).Shaped c.th.toNat c.tw.toNat ∧
+    ∀ r k, r < c.th.toNat → k < c.tw.toNat →
+      ((applyPads fill o.pads (resizeWith kern h' w' g)).cropBox o.box).cell r k
+        = (applyPads fill o.pads (resizeWith kern h' w' g)).cell (o.box.i.toNat + r) (o.box.j.toNat + k) := by
+  have := crop_recorded_params_reproduce_output c h' w' t t' o fill (resizeWith kern h' w' g) hr
+    (c14x_resizeWith_shaped kern h' w' g) hh hp
+  exact ⟨this.2.1, fun r k hr' hk' => (this.2.2 r k hr' hk').1⟩
+
+/-- **KDTwoRandomCrop — both recorded boxes reproduce both outputs, each of the requested size.** Same clause as
+    `crop_recorded_params_reproduce_output`, for the two views: both are crops of the *same* padded image at the two
+    boxes recorded in `ctx["two_random_crop"]`. Hypotheses as there. -/
+theorem two_crop_recorded_params_reproduce_outputs {α : Type} (c : CropCfg) (omin omax : Rat) (tries : Option Nat)
+    (fuel : Nat) (h w : Nat) (t t' : Tape) (o : TwoCropOut) (fill : α) (g : Grid α)
+    (hr : twoCrop c omin omax tries fuel (h : Int) (w : Int) t = .ok (o, t'))
+    (hg : g.Shaped h w) (hh : 0 < h) (hp : c.padding.nonneg) :
+    (applyPads fill o.pads g).Shaped o.H.toNat o.W.toNat ∧
+    (∀ b, b = o.b0 ∨ b = o.res.b1 →
+      ((applyPads fill o.pads g).cropBox b).Shaped c.th.toNat c.tw.toNat ∧
+      ∀ r k, r < c.th.toNat → k < c.tw.toNat →
+        ((applyPads fill o.pads g).cropBox b).cell r k = (applyPads fill o.pads g).cell (b.i.toNat + r) (b.j.toNat + k) ∧
+        ((applyPads fill o.pads g).cropBox b).cell r k = padCropCell fill g h w o.pads b r k ∧
+        ∃ a, ((applyPads fill o.pads g).cropBox b).cell r k = some a) := by
+  obtain ⟨e1, e2, e3, hin0, eh0, ew0, hin1, eh1, ew1, -⟩ := two_crop_in_bounds c omin omax tries fuel h w t t' o hr
+  have hn : padsNonneg o.pads := e1 ▸ c14x_padSeq_nonneg c h w hp
+  rw [e2, e3] at hin0 hin1
+  have k0 := c14x_pad_crop_spec fill g h w o.pads o.b0 hn hg hh hin0
+  have k1 := c14x_pad_crop_spec fill g h w o.pads o.res.b1 hn hg hh hin1
+  rw [eh0, ew0, ← e2, ← e3] at k0
+  rw [eh1, ew1, ← e2, ← e3] at k1
+  refine ⟨k0.1, ?_⟩
+  rintro b (rfl | rfl)
+  · exact k0.2
+  · exact k1.2
+
+example : (match twoCrop ⟨2, 2, .none, false⟩ 0 1 (some 3) 10 3 3
+      [.ints 0 2 0, .ints 0 2 0, .ints 0 2 1, .ints 0 2 1] with
+    | .ok (o, _) => decide (Grid.cropBox ([[1, 2, 3], [4, 5, 6], [7, 8, 9]] : Grid Int) o.b0 = [[1, 2], [4, 5]] ∧
+        Grid.cropBox ([[1, 2, 3], [4, 5, 6], [7, 8, 9]] : Grid Int) o.res.b1 = [[5, 6], [8, 9]])
+    | .error _ => false) = true := by decide +kernel
+
+/-- **KDRandomResizedCrop — the recorded box reproduces the crop before the resize; after the resize the size is the
+    requested one.** For every `H × W` input grid, all proposals and every tape, in the accept branch and in the
+    fallback branch: cropping the box recorded in `ctx["random_resized_crop"]` by hand gives a `box.h × box.w` grid whose
+    cell `(r, k)` is the input's cell `(i + r, j + k)`; whatever the interpolation kernel, the resized result is
+    `th × tw`. Hypotheses (needed in the fallback branch only, and stated only for it): positive image size and ratio
+    bounds, order-faithful float front end — exactly those of `rrc_fallback_in_bounds`. -/
+theorem rrc_recorded_box_reproduces_crop {α β : Type} (W H : Nat) (r0 r1 : Rat) (props ps : List (Int × Int))
+    (fe : RrcFront) (t t' : Tape) (o : RrcOut) (g : Grid α) (kern : Grid α → Nat → Nat → β) (th tw : Nat)
+    (hr : rrc (W : Int) (H : Int) r0 r1 props fe t = .ok (o, ps, t')) (hg : g.Shaped H W)
+    (hfb : o.fallback = true → 0 < W ∧ 0 < H ∧ 0 < r0 ∧ 0 < r1 ∧ FrontOk (W : Int) (H : Int) r0 r1 fe) :
+    (g.cropBox o.box).Shaped o.box.h.toNat o.box.w.toNat ∧
+    (∀ r k, r < o.box.h.toNat → k < o.box.w.toNat →
+      (g.cropBox o.box).cell r k = g.cell (o.box.i.toNat + r) (o.box.j.toNat + k) ∧
+      ∃ a, (g.cropBox o.box).cell r k = some a) ∧
+    (resizeWith kern th tw (g.cropBox o.box)).Shaped th tw := by
+  have hin : o.box.inside (H : Int) (W : Int) := by
+    cases hf : o.fallback with
+    | false => exact (rrc_accept_in_bounds W H r0 r1 props ps fe t t' o hr hf).1
+    | true =>
+      obtain ⟨a1, a2, a3, a4, a5⟩ := hfb hf
+      have hbox : o.box = rrcFallback W H r0 r1 fe := by
+        unfold rrc at hr
+        cases hl : rrcLoop (W : Int) (H : Int) 10 props t with
+        | error e => simp [hl] at hr
+        | ok x =>
+          obtain ⟨ob, ps1, t1⟩ := x
+          cases ob with
+          | none =>
+            simp only [hl, Except.ok.injEq, Prod.mk.injEq] at hr
+            obtain ⟨rfl, _⟩ := hr
+            rfl
+          | some b =>
+            simp only [hl, Except.ok.injEq, Prod.mk.injEq] at hr
+            obtain ⟨rfl, _⟩ := hr
+            simp at hf
+      rw [hbox]
+      exact (rrc_fallback_in_bounds W H r0 r1 fe (by exact_mod_cast a1) (by exact_mod_cast a2) a3 a4 a5).1
+  have hs := c14x_cropBox_shaped g H W o.box hg hin
+  exact ⟨hs, fun r k hr' hk' => ⟨c14x_cell_cropBox g o.box r k hr' hk', c14x_cell_some_of_shaped _ _ _ r k hs hr' hk'⟩,
+    c14x_resizeWith_shaped kern th tw _⟩
+
+example : (match rrc 3 3 (3 / 4) (4 / 3) [(2, 2)] ⟨1, 0, 0⟩ [.unif 0, .unif 0, .ints 0 2 1, .ints 0 2 0] with
+    | .ok (o, _, _) => decide (Grid.cropBox ([[1, 2, 3], [4, 5, 6], [7, 8, 9]] : Grid Int) o.box = [[4, 5], [7, 8]]) && !o.fallback
+    | .error _ => false) = true := by decide +kernel
+
+/-- **KDSemsegRandomCrop — one box, applied by hand to image and mask, gives both outputs; identical geometry; size
+    `min(H, th) × min(W, tw)`.** Clauses: "return the requested output size", "recorded parameters reproduce the output",
+    "paired image/segmentation transforms apply identical geometry to both members". For every `H × W` image `x` and
+    mask `s` (cell types may differ), with or without category-ratio retries, every tape: both crops have the size
+    `min(H, th) × min(W, tw)`, and cell `(r, k)` of the image crop / mask crop is cell `(i + r, j + k)` of the image /
+    mask — the same source position for both members. No hypothesis beyond the shapes. -/
+theorem semseg_crop_reproduces_both_members {α β : Type} (H W : Nat) (th tw : Int) (retry : Bool) (oks oks' : List Bool)
+    (t t' : Tape) (b : Box) (x : Grid α) (s : Grid β)
+    (hr : semsegCrop (H : Int) (W : Int) th tw retry oks t = .ok (b, oks', t'))
+    (hx : x.Shaped H W) (hs : s.Shaped H W) :
+    (x.cropBox b).Shaped (imin H th).toNat (imin W tw).toNat ∧
+    (s.cropBox b).Shaped (imin H th).toNat (imin W tw).toNat ∧
+    ∀ r k, r < (imin H th).toNat → k < (imin W tw).toNat →
+      (x.cropBox b).cell r k = x.cell (b.i.toNat + r) (b.j.toNat + k) ∧
+      (s.cropBox b).cell r k = s.cell (b.i.toNat + r) (b.j.toNat + k) ∧
+      (∃ a, (x.cropBox b).cell r k = some a) ∧ (∃ a, (s.cropBox b).cell r k = some a) := by
+  obtain ⟨hin, eh, ew⟩ := semseg_crop_in_bounds H W th tw retry oks oks' t t' b hr
+  have sx := c14x_cropBox_shaped x H W b hx hin
+  have ss := c14x_cropBox_shaped s H W b hs hin
+  rw [eh, ew] at sx ss
+  refine ⟨sx, ss, ?_⟩
+  intro r k hr' hk'
+  exact ⟨c14x_cell_cropBox x b r k (by rw [eh]; exact hr') (by rw [ew]; exact hk'),
+    c14x_cell_cropBox s b r k (by rw [eh]; exact hr') (by rw [ew]; exact hk'),
+    c14x_cell_some_of_shaped _ _ _ r k sx hr' hk', c14x_cell_some_of_shaped _ _ _ r k ss hr' hk'⟩
+
+/-- 2×4 pair, 3×2 target (height is clipped to 2): the drawn box `(0, 1, 2, 2)` cuts the same window out of both -/
+example : (match semsegCrop 2 4 3 2 false [] [.ints 0 1 0, .ints 0 3 1] with
+    | .ok (b, _, _) => decide (Grid.cropBox ([[1, 2, 3, 4], [5, 6, 7, 8]] : Grid Int) b = [[2, 3], [6, 7]] ∧
+        Grid.cropBox ([["a", "b", "c", "d"], ["e", "f", "g", "h"]] : Grid String) b = [["b", "c"], ["f", "g"]])
+    | .error _ => false) = true := by decide +kernel
+
+/-- **KDSemsegPad — size `max(H, th) × max(W, tw)` for both members, same geometry, cells in closed form.** Clauses:
+    "pad … return the requested output size", "identical geometry to both members". The one padding tuple, applied by
+    hand with fill `fx` to the image and fill `fs` to the mask (`0` and `-1` in the code): both results are
+    `max(H, th) × max(W, tw)`; cell `(r, k)` of either is the member's own cell `(r - top, k - left)` when
+    `top ≤ r < top + H` and `left ≤ k < left + W` and the fill value elsewhere (`paddedCell`, same `top`/`left` for both).
+    Hypothesis from the domain: `0 < H`. -/
+theorem semseg_pad_reproduces_both_members {α β : Type} (H W : Nat) (th tw : Int) (x : Grid α) (s : Grid β) (fx : α) (fs : β)
+    (hx : x.Shaped H W) (hs : s.Shaped H W) (hH : 0 < H) :
+    (x.padWith (semsegPad H W th tw) fx).Shaped (imax H th).toNat (imax W tw).toNat ∧
+    (s.padWith (semsegPad H W th tw) fs).Shaped (imax H th).toNat (imax W tw).toNat ∧
+    ∀ r k,
+      (x.padWith (semsegPad H W th tw) fx).cell r k =
+        paddedCell fx x H W (semsegPad H W th tw).t.toNat (semsegPad H W th tw).l.toNat
+          (imax H th).toNat (imax W tw).toNat r k ∧
+      (s.padWith (semsegPad H W th tw) fs).cell r k =
+        paddedCell fs s H W (semsegPad H W th tw).t.toNat (semsegPad H W th tw).l.toNat
+          (imax H th).toNat (imax W tw).toNat r k := by
+  have hp := semseg_pad_reaches_size (H : Int) (W : Int) th tw
+  simp only at hp
+  obtain ⟨p1, p2, p3, p4, p5, p6, p7, p8⟩ := hp
+  generalize semsegPad (H : Int) (W : Int) th tw = p at *
+  have eH : H + p.t.toNat + p.b.toNat = (imax H th).toNat := by omega
+  have eW : W + p.l.toNat + p.r.toNat = (imax W tw).toNat := by omega
+  have sx := Grid.pad_shaped x H W p.l.toNat p.t.toNat p.r.toNat p.b.toNat fx hx hH
+  have ss := Grid.pad_shaped s H W p.l.toNat p.t.toNat p.r.toNat p.b.toNat fs hs hH
+  rw [eH, eW] at sx ss
+  refine ⟨sx, ss, ?_⟩
+  intro r k
+  have cx := c14x_cell_pad x H W p.l.toNat p.t.toNat p.r.toNat p.b.toNat fx hx hH r k
+  have cs := c14x_cell_pad s H W p.l.toNat p.t.toNat p.r.toNat p.b.toNat fs hs hH r k
+  rw [eH, eW] at cx cs
+  exact ⟨cx, cs⟩
+
+example : Grid.padWith ([[1, 2]] : Grid Int) (semsegPad 1 2 2 5) 0 = [[0, 1, 2, 0, 0], [0, 0, 0, 0, 0]] ∧
+    Grid.padWith ([[7, 8]] : Grid Int) (semsegPad 1 2 2 5) (-1) = [[-1, 7, 8, -1, -1], [-1, -1, -1, -1, -1]] := by
+  decide +kernel
+
+/-- **KDSemsegOverlappedMultiCrop — every crop of the grid, applied by hand, is `ch × cw` and a window of the input.**
+    Clause: "crop … stay inside the input's bounds and return the requested output size". -/
+theorem multi_crop_reproduces_windows {α : Type} (H W : Nat) (ch cw : Int) (bs : List Box) (g : Grid α)
+    (hH : 0 < H) (hW : 0 < W) (hr : multiCropGrid (H : Int) (W : Int) ch cw = .ok bs) (hg : g.Shaped H W) :
+    ∀ b ∈ bs, (g.cropBox b).Shaped ch.toNat cw.toNat ∧
+      ∀ r k, r < ch.toNat → k < cw.toNat → (g.cropBox b).cell r k = g.cell (b.i.toNat + r) (b.j.toNat + k) := by
+  intro b hb
+  obtain ⟨hin, eh, ew⟩ := (multi_crop_in_bounds H W ch cw bs (by exact_mod_cast hH) (by exact_mod_cast hW) hr).1 b hb
+  have sx := c14x_cropBox_shaped g H W b hg hin
+  rw [eh, ew] at sx
+  exact ⟨sx, fun r k hr' hk' => c14x_cell_cropBox g b r k (by rw [eh]; exact hr') (by rw [ew]; exact hk')⟩
+
+/-- **KDRandomErasing — erasing the recorded boxes by hand changes exactly the cells inside the boxes.** Clause: "erase …
+    stay inside the input's bounds … the parameters they record reproduce the output". For every `H × W` grid (one
+    channel), every proposal list and tape, and any replacement value per box (`bvs` pairs the recorded boxes, in order,
+    with the value written into them — `zeros`: all 0; `channelwise`: the channel's draw for that box): the result keeps
+    the shape, and **every** cell `(r, k)` is given by `eraseSpecCell`: the value of the last box containing `(r, k)`, or
+    the input's own cell if no box contains it. In particular (second part) a cell outside all recorded boxes is
+    untouched, and (third part) every cell a recorded box claims exists in the image. -/
+theorem erase_changes_exactly_the_recorded_boxes {α : Type} (c : EraseCfg) (H W : Nat) (props ps : List (Int × Int))
+    (t t' : Tape) (o : EraseOut) (g : Grid α) (bvs : List (Box × α))
+    (hr : erasing c (H : Int) (W : Int) props t = .ok (o, ps, t')) (hg : g.Shaped H W)
+    (hb : bvs.map Prod.fst = o.boxes) :
+    (erasePaste g bvs).Shaped H W ∧
+    (∀ r k, (erasePaste g bvs).cell r k = eraseSpecCell g bvs r k) ∧
+    (∀ r k, (∀ b ∈ o.boxes, ¬ b.contains r k) → (erasePaste g bvs).cell r k = g.cell r k) ∧
+    (∀ b ∈ o.boxes, ∀ r k, b.contains r k → r < H ∧ k < W) := by
+  have hin := (erase_boxes_in_bounds c H W props ps t t' o hr).2
+  have hin' : ∀ bv ∈ bvs, bv.1.inside (H : Int) (W : Int) := by
+    intro bv hbv
+    exact (hin bv.1 (by rw [← hb]; exact List.mem_map_of_mem hbv)).1
+  obtain ⟨s1, s2⟩ := c14x_erasePaste_spec H W bvs g hg hin'
+  refine ⟨s1, s2, ?_, ?_⟩
+  · intro r k hno
+    rw [s2]
+    unfold eraseSpecCell
+    have : bvs.reverse.find? (fun bv => decide (bv.1.contains r k)) = none := by
+      rw [List.find?_eq_none]
+      intro bv hbv
+      have hm : bv.1 ∈ o.boxes := by rw [← hb]; exact List.mem_map_of_mem (List.mem_reverse.1 hbv)
+      simpa using hno bv.1 hm
+    rw [this]
+  · intro b hb' r k hc
+    exact c14x_contains_in_range b H W r k (hin b hb').1 hc
+
+/-- … and in `zeros` mode (one replacement value `v` for all boxes): a cell is `v` iff some recorded box contains it -/
+theorem erase_zeros_cellwise {α : Type} (c : EraseCfg) (H W : Nat) (props ps : List (Int × Int))
+    (t t' : Tape) (o : EraseOut) (g : Grid α) (v : α)
+    (hr : erasing c (H : Int) (W : Int) props t = .ok (o, ps, t')) (hg : g.Shaped H W) :
+    (o.boxes.foldl (fun g b => g.pasteBox b v) g).Shaped H W ∧
+    ∀ r k, (o.boxes.foldl (fun g b => g.pasteBox b v) g).cell r k =
+      if ∃ b ∈ o.boxes, b.contains r k then some v else g.cell r k := by
+  have := erase_changes_exactly_the_recorded_boxes c H W props ps t t' o g (o.boxes.map (fun b => (b, v))) hr hg
+    (by simp [Function.comp_def])
+  rw [c14x_erasePaste_const]
+  refine ⟨this.1, fun r k => ?_⟩
+  rw [this.2.1, c14x_eraseSpecCell_const]
+
+/-- 3×4 image, one 2×2 box drawn at (1, 1) -/
+example : (match erasing ⟨1, 1, 1, false⟩ 3 4 [(2, 2)] [.rand (1 / 2), .unif 0, .unif 0, .ints 0 2 1, .ints 0 3 1] with
+    | .ok (o, _, _) => decide (o.boxes.foldl (fun g b => Grid.pasteBox g b 0) ([[1, 2, 3, 4], [5, 6, 7, 8], [9, 10, 11, 12]] : Grid Int)
+        = [[1, 2, 3, 4], [5, 0, 0, 8], [9, 0, 0, 12]])
+    | .error _ => false) = true := by decide +kernel
+
+/-! ## inverses in the other direction -/
+
+/-- **`rearrange p ∘ rearrange (swap p) = id`** — the other direction of `rearrange_swap_inverse`: for every well-formed
+    pattern, all axis sizes and every element position `j` of the *output* layout. Together the two say that `rearrange p`
+    is a bijection between the positions of the two layouts (which have the same number of elements) with inverse
+    `rearrange p.swap`. Clause: "patchify/unpatchify … are mutual inverses". -/
+theorem rearrange_swap_inverse_right (p : Pattern) (hp : p.WellFormed) (s : Sizes) (j : Nat)
+    (hj : j < prodSizes s p.rhs.flatten) :
+    rearrange p.swap s j < prodSizes s p.lhs.flatten ∧ rearrange p s (rearrange p.swap s j) = j ∧
+      prodSizes s p.lhs.flatten = prodSizes s p.rhs.flatten :=
+  ⟨rearrange_lt p.swap hp.swap s j hj, rearrange_swap p.swap hp.swap s j hj, c14x_prodSizes_sides p hp s⟩
+
+open KDVerif.Gen.Patterns in
+/-- **patchify ∘ unpatchify = id** (`PatchifyImage` after `UnpatchifyImage`, pattern strings as in the code): for all sizes
+    of `c, lh, lw, ph, pw` every element position of the patch layout `c (lh lw) ph pw` returns to itself. With
+    `unpatchify_image_patchify_image_id` the two transforms are mutual inverses. -/
+theorem patchify_image_unpatchify_image_id (s : Sizes) (j : Nat)
+    (hj : j < s "c" * ((s "lh" * s "lw") * (s "ph" * s "pw"))) :
+    rearrange patchifyImage s (rearrange unpatchifyImage s j) = j := by
+  rw [unpatchifyImage_is_swap]
+  apply (rearrange_swap_inverse_right _ patchifyImage_wf s j _).2.1
+  have := shape_total s patchifyImage.rhs
+  rw [patchifyImage_rhs_shape] at this
+  rw [← this]
+  simp only [List.foldr_cons, List.foldr_nil]
+  calc j < s "c" * ((s "lh" * s "lw") * (s "ph" * s "pw")) := hj
+    _ = _ := by ring
+
+open KDVerif.Gen.Patterns in
+/-- the same for `Patchify` after `Unpatchify` and for the two rearrangements inside `PatchwiseTransform` -/
+theorem patchify_unpatchify_id (s : Sizes) (j : Nat) (hj : j < prodSizes s patchify.rhs.flatten) :
+    rearrange patchify s (rearrange unpatchify s j) = j ∧
+      (∀ k, k < prodSizes s patchwiseFlatten.rhs.flatten →
+        rearrange patchwiseFlatten s (rearrange patchwiseUnflatten s k) = k) := by
+  constructor
+  · rw [unpatchify_is_swap]; exact (rearrange_swap_inverse_right _ patchify_wf s j hj).2.1
+  · intro k hk; rw [patchwiseUnflatten_is_swap]; exact (rearrange_swap_inverse_right _ patchwiseFlatten_wf s k hk).2.1
+
+example : rearrange KDVerif.Gen.Patterns.unpatchifyImage
+    (sizesOf [("c", 1), ("lh", 2), ("ph", 2), ("lw", 2), ("pw", 2)]) 4 = 2 ∧
+  rearrange KDVerif.Gen.Patterns.patchifyImage
+    (sizesOf [("c", 1), ("lh", 2), ("ph", 2), ("lw", 2), ("pw", 2)]) 2 = 4 := by decide
+
+/-- **`gather π ∘ gather (inverse π) = id`** — un-shuffling with `argsort π` and shuffling again with the recorded `π`
+    restores the sequence (the other direction of `shuffle_then_unshuffle`), for every permutation `π` of the patch
+    positions. -/
+theorem unshuffle_then_shuffle {α : Type} (ys : List α) (perm : List Nat) (hp : perm.Perm (List.range ys.length)) :
+    ∃ xs, gather ys (invPerm perm) = some xs ∧ xs.length = ys.length ∧ gather xs perm = some ys := by
+  have hlen : perm.length = ys.length := by simpa using hp.length_eq
+  have hnd : perm.Nodup := hp.nodup_iff.2 List.nodup_range
+  have hmem : ∀ k, k ∈ perm ↔ k < ys.length := fun k => by rw [hp.mem_iff]; simp
+  have hil : (invPerm perm).length = ys.length := by simp [invPerm, hlen]
+  have hinv : ∀ k ∈ invPerm perm, k < ys.length := by
+    intro k hk
+    simp only [invPerm, List.mem_map, List.mem_range] at hk
+    obtain ⟨m, hm, rfl⟩ := hk
+    rw [← hlen]
+    exact List.idxOf_lt_length_of_mem ((hmem m).2 (by omega))
+  obtain ⟨xs, hx, hxl, hxg⟩ := gather_spec ys (invPerm perm) hinv
+  refine ⟨xs, hx, by omega, ?_⟩
+  obtain ⟨zs, hz, hzl, hzg⟩ := gather_spec xs perm (fun k hk => by rw [hxl, hil]; exact (hmem k).1 hk)
+  rw [hz]
+  congr 1
+  apply List.ext_getElem?
+  intro m
+  by_cases hm : m < ys.length
+  · have hm' : m < perm.length := by omega
+    rw [hzg m hm']
+    have hpm : perm[m] < (invPerm perm).length := by rw [hil]; exact (hmem _).1 (List.getElem_mem hm')
+    rw [hxg _ hpm]
+    have e1 : (invPerm perm)[perm[m]] = perm.idxOf perm[m] := by simp [invPerm]
+    rw [e1, hnd.idxOf_getElem]
+  · rw [List.getElem?_eq_none (by omega), List.getElem?_eq_none (by omega)]
+
+example : gather ["c", "a", "b"] (invPerm [2, 0, 1]) = some ["a", "b", "c"] ∧
+    gather ["a", "b", "c"] [2, 0, 1] = some ["c", "a", "b"] := by decide
+
+/-- **what `x[:, π]` does to positions** (justifies `shufflePos`): after `gather xs π` the element that was at position
+    `l` sits at position `π.idxOf l` -/
+theorem gather_lands_at {α : Type} (xs ys : List α) (perm : List Nat) (hp : perm.Perm (List.range xs.length))
+    (hg : gather xs perm = some ys) (l : Nat) (hl : l < xs.length) : ys[perm.idxOf l]? = xs[l]? := by
+  have hmem : ∀ k, k ∈ perm ↔ k < xs.length := fun k => by rw [hp.mem_iff]; simp
+  obtain ⟨zs, hz, _, hzg⟩ := gather_spec xs perm (fun k hk => (hmem k).1 hk)
+  rw [hg] at hz
+  obtain rfl := Option.some.inj hz
+  have hidx : perm.idxOf l < perm.length := List.idxOf_lt_length_of_mem ((hmem l).2 hl)
+  rw [hzg _ hidx, List.getElem_idxOf hidx]
+
+open KDVerif.Gen.Patterns in
+/-- **unpatchify ∘ un-shuffle ∘ shuffle ∘ patchify = id** — "patchify/unpatchify (also around patch shuffles, using the
+    recorded permutation) … are mutual inverses", on element positions: for all sizes of `c, lh, ph, lw, pw`, every
+    permutation `π` of the `lh·lw` patch positions (what `PatchwiseShuffle` records in `ctx["permutation"]`) and every
+    element position `i` of the image: patchify, move the patches by `x[:, π]`, move them back by `x[:, argsort π]`,
+    unpatchify — the element is back at `i`. -/
+theorem unpatchify_unshuffle_shuffle_patchify_id (s : Sizes) (perm : List Nat)
+    (hp : perm.Perm (List.range (s "lh" * s "lw"))) (i : Nat)
+    (hi : i < s "c" * ((s "lh" * s "ph") * (s "lw" * s "pw"))) :
+    rearrange unpatchifyImage s
+      (shufflePos (invPerm perm) (s "lh" * s "lw") (s "ph" * s "pw")
+        (shufflePos perm (s "lh" * s "lw") (s "ph" * s "pw") (rearrange patchifyImage s i))) = i := by
+  have hi' : i < prodSizes s patchifyImage.lhs.flatten := by
+    have : prodSizes s patchifyImage.lhs.flatten = s "c" * ((s "lh" * s "ph") * (s "lw" * s "pw")) := by
+      show s "c" * (s "lh" * (s "ph" * (s "lw" * (s "pw" * 1)))) = _
+      ring
+    omega
+  have hq := rearrange_lt patchifyImage patchifyImage_wf s i hi'
+  have hq' : rearrange patchifyImage s i < s "c" * ((s "lh" * s "lw") * (s "ph" * s "pw")) := by
+    have : prodSizes s patchifyImage.rhs.flatten = s "c" * ((s "lh" * s "lw") * (s "ph" * s "pw")) := by
+      show s "c" * (s "lh" * (s "lw" * (s "ph" * (s "pw" * 1)))) = _
+      ring
+    omega
+  rw [(c14x_shufflePos_roundtrip perm _ _ _ _ hp hq').2]
+  exact unpatchify_image_patchify_image_id s i hi
+
+/-- 1 channel, 2×2 patches of 1×2 pixels, `π = [2, 0, 3, 1]`: the pixel at position 5 (patch 2, offset 1) goes to
+    patch position `π.idxOf 2 = 0`, offset 1, and comes back -/
+example : shufflePos [2, 0, 3, 1] 4 2 5 = 1 ∧ shufflePos (invPerm [2, 0, 3, 1]) 4 2 1 = 5 := by decide
+
+/-- **channel-wise `norm ∘ denorm = id`** on whole images (the other direction of `denorm_norm_channels_id`): for every
+    mean list and every std list without zeros (torchvision raises on a zero std) of the image's channel count. -/
+theorem norm_denorm_channels_id (ms ss : List Rat) (img : List (List Rat)) (hs : ∀ s ∈ ss, s ≠ 0)
+    (hl1 : ms.length = img.length) (hl2 : ss.length = img.length) :
+    ∃ y, denormChannels ms ss img = some y ∧ normChannels ms ss y = some img :=
+  c14x_mapChannels_roundtrip denormalize normalize (· ≠ 0) (fun m s x h => norm_denorm_id m s x h) ms ss img hs hl1 hl2
+
+example : denormChannels [1, 2] [2, 4] [[0, 1], [3]] = some [[1, 3], [14]] ∧
+    normChannels [1, 2] [2, 4] [[1, 3], [14]] = some [[0, 1], [3]] := by decide +kernel
+
+/-- `KDImageRangeNorm`: `norm ∘ denorm = id` -/
+theorem range_norm_denorm_id (x : Rat) : rangeNormalize (rangeDenormalize x) = x := by
+  unfold rangeDenormalize rangeNormalize normalize
+  ring
+
+/-! ## KDSpecAugment: both axes -/
+
+/-- **KDSpecAugment, both axes — the mask stays inside the input and is shorter than the parameter.** Clause: "masking
+    transforms stay inside the input's bounds … for every input size and seed". For the whole `__call__` (time masking on
+    the axis of length `nT`, then frequency masking on the axis of length `nF`), every pair of parameters, every tape and
+    every pair of front-end integers: each mask that is applied belongs to a configured parameter `P ≥ 1`, its interval
+    `[start, stop)` has length `value.long() < P`, the masked positions are exactly the positions of the axis inside the
+    interval (hence all inside the input, fewer than `P`), and whenever the front end's integers describe an interval of
+    the axis (`0 ≤ min_value.long()`, `0 ≤ value.long()`, sum `≤ size`) the interval itself lies inside `[0, size]` and
+    is masked completely (`SpecAxisOk`). -/
+theorem spec_augment_both_axes_in_bounds (nT nF : Nat) (tm fm : Option Int) (feT feF : Int × Int) (t t' : Tape)
+    (mT mF : Option SpecMask) (h : specAugment nT nF tm fm feT feF t = .ok (mT, mF, t')) :
+    (∀ m, mT = some m → ∃ P, tm = some P ∧ 1 ≤ P ∧ SpecAxisOk nT P feT m) ∧
+    (∀ m, mF = some m → ∃ P, fm = some P ∧ 1 ≤ P ∧ SpecAxisOk nF P feF m) := by
+  have key : ∀ (size : Nat) (p : Option Int) (fe : Int × Int) (ta tb : Tape) (mo : Option SpecMask),
+      (match p with
+        | none => (Except.ok (none, ta) : Except Err (Option SpecMask × Tape))
+        | some q => specAxis size q fe ta) = .ok (mo, tb) →
+      ∀ m, mo = some m → ∃ P, p = some P ∧ 1 ≤ P ∧ SpecAxisOk size P fe m := by
+    intro size p fe ta tb mo hrun m hm
+    subst hm
+    cases p with
+    | none => simp at hrun
+    | some P =>
+      have := c14x_specAxis_ok size P fe ta tb m hrun
+      exact ⟨P, rfl, this.2, this.1⟩
+  unfold specAugment at h
+  simp only at h
+  split at h
+  · simp at h
+  · rename_i m1 t1 h1
+    split at h
+    · simp at h
+    · rename_i m2 t2 h2
+      simp only [Except.ok.injEq, Prod.mk.injEq] at h
+      obtain ⟨rfl, rfl, _⟩ := h
+      exact ⟨key nT tm feT t t1 m1 h1, key nF fm feF t1 t2 m2 h2⟩
+
+/-- time mask `[5, 8)` on an axis of 10, frequency mask `[1, 2)` on an axis of 4 -/
+example : (match specAugment 10 4 (some 4) (some 2) (3, 5) (1, 1)
+      [.rand (1 / 2), .rand (1 / 2), .rand (1 / 2), .rand (1 / 2)] with
+    | .ok (some a, some b, _) => decide (a.idx = [5, 6, 7] ∧ b.idx = [1])
+    | _ => false) = true := by decide +kernel
+
+/-- **KDSpecAugment with the front end in exact arithmetic — the interval lies inside the input, the `assert` never
+    fires.** For every axis length, every `mask_param ≥ 1`, all two draws of `rng.random()` (contract `0 ≤ r < 1`) with
+    `value = r1 · mask_param ≤ size` (always true when `mask_param ≤ size`): the run succeeds, `0 ≤ start ≤ stop ≤ size`,
+    `stop - start < mask_param`, and exactly the `stop - start` positions of the interval are masked.
+    PARTIAL with respect to the code: the code computes `value`, `min_value` in float32; `specFront` is the same formula
+    over `Rat`. What is missing is a float32 model (a float32 product can round up to `mask_param`, then the code's
+    `assert` fires — an error outcome, not an out-of-bounds mask; covered by `spec_augment_both_axes_in_bounds`). -/
+theorem spec_axis_exact_front_interval_inside_partial (size : Nat) (P : Int) (r1 r2 : Rat) (rest : Tape) (hP : 1 ≤ P)
+    (h1 : 0 ≤ r1 ∧ r1 < 1) (h2 : 0 ≤ r2 ∧ r2 < 1) (hfit : r1 * (P : Rat) ≤ (size : Rat)) :
+    ∃ m, specAxis size P (specFront size P r1 r2) (.rand r1 :: .rand r2 :: rest) = .ok (some m, rest) ∧
+      0 ≤ m.start ∧ m.start ≤ m.stop ∧ m.stop ≤ size ∧ m.stop - m.start < P ∧
+      (m.idx.length : Int) = m.stop - m.start ∧ ∀ k, k ∈ m.idx ↔ m.start ≤ (k : Int) ∧ (k : Int) < m.stop := by
+  obtain ⟨c1, c2, c3, c4⟩ := c14x_specFront_contract size P r1 r2 hP h1 h2 hfit
+  generalize specFront size P r1 r2 = fe at *
+  have hrun : specAxis size P fe (.rand r1 :: .rand r2 :: rest)
+      = .ok (some ⟨fe.2, fe.2 + fe.1, maskIdx size fe.2 (fe.2 + fe.1)⟩, rest) := by
+    have hP' : ¬ P < 1 := by omega
+    simp [specAxis, hP', drawRand, h1.1, h1.2, h2.1, h2.2, c2]
+  refine ⟨_, hrun, ?_⟩
+  obtain ⟨ok, _⟩ := c14x_specAxis_ok size P fe _ _ _ hrun
+  obtain ⟨i1, i2, i3, i4⟩ := ok.inside c3 c1 c4
+  refine ⟨i1, i2, i3, ok.len_lt, i4, ?_⟩
+  intro k
+  rw [ok.mem_iff]
+  constructor
+  · intro hk; exact hk.2
+  · intro hk; exact ⟨by omega, hk⟩
+
+/-- `size = 10`, `mask_param = 4`, draws `0.9`, `0.5`: `value = 3.6 → 3`, `min_value = 0.5 · 6.4 = 3.2 → 3`: mask `[3, 6)` -/
+example : specFront 10 4 (9 / 10) (1 / 2) = (3, 3) := by decide +kernel
+
+/-- the excluded corner `value > size` is real (parameter 10 on an axis of 3, draws 0.95 and 0): the interval `[0, 9)`
+    sticks out of the axis — the *masked positions* are still inside (`spec_augment_both_axes_in_bounds`) -/
+example : specFront 3 10 (19 / 20) 0 = (9, 0) ∧ (match specAxis 3 10 (9, 0) [.rand (19 / 20), .rand 0] with
+    | .ok (some m, _) => decide (m.stop = 9 ∧ m.idx = [0, 1, 2])
+    | _ => false) = true := by decide +kernel
 
 end KDVerif.C14
